@@ -4,8 +4,10 @@
  * from which key size, value size, type and capacity are read. Semantics follow bpf-helpers(7):
  *   bpf_get_current_pid_tgid() = tgid << 32 | tid
  *   bpf_get_current_uid_gid()  = gid  << 32 | uid
- *   map lookup/update/delete: hash maps; LRU maps never reach capacity in the explored space
- *   (asserted), so eviction order is not modelled. */
+ *   map lookup/update/delete: preallocated hash maps; a deleted element's memory stays readable and is handed
+ *   to the next insert (lowest free slot); a full BPF_MAP_TYPE_HASH rejects a new key with -E2BIG, a full
+ *   BPF_MAP_TYPE_LRU_HASH evicts the least recently used element (lookup and update count as use). The model's
+ *   table holds VT_MAX_ENTRIES elements: a map is full at min(max_entries, VT_MAX_ENTRIES). */
 #ifndef VT_USER_BPF_HELPERS_H
 #define VT_USER_BPF_HELPERS_H
 #include <string.h>
@@ -20,8 +22,8 @@
 #define VT_MAX_ENTRIES 16
 #define VT_MAX_KEY 32
 #define VT_MAX_VAL 32
-struct vt_entry { unsigned char used; unsigned char key[VT_MAX_KEY]; unsigned char val[VT_MAX_VAL]; };
-struct vt_map { const void *id; unsigned key_size, value_size, cap, type; unsigned count; struct vt_entry e[VT_MAX_ENTRIES]; };
+struct vt_entry { unsigned char used; unsigned stamp; unsigned char key[VT_MAX_KEY]; unsigned char val[VT_MAX_VAL]; };
+struct vt_map { const void *id; unsigned key_size, value_size, cap, type; unsigned count; unsigned clock; struct vt_entry e[VT_MAX_ENTRIES]; };
 struct vt_task { unsigned tgid, tid, uid, gid; };
 
 extern struct vt_map vt_maps[4];
@@ -33,10 +35,12 @@ long vt_delete(const void *id, unsigned ks, unsigned vs, unsigned cap, unsigned 
 void vt_yield(const char *what);
 
 #define VT_DESC(m) (const void *)(m), sizeof(*(m)->key), sizeof(*(m)->value), (unsigned)(sizeof(*(m)->max_entries) / sizeof(int)), (unsigned)(sizeof(*(m)->type) / sizeof(int))
-#define bpf_map_lookup_elem(m, k) (vt_yield("lookup"), vt_lookup(VT_DESC(m), (k)))
+/* map helpers are scheduling points on both edges: another CPU may act between the helper returning and the
+   code that uses its result (a value pointer stays valid memory after a delete, and may be handed to the next insert) */
+#define bpf_map_lookup_elem(m, k) ({ vt_yield("lookup"); void *vt_r_ = vt_lookup(VT_DESC(m), (k)); vt_yield("after-lookup"); vt_r_; })
 long vt_update_f(const void *id, unsigned ks, unsigned vs, unsigned cap, unsigned type, const void *key, const void *val, unsigned long long flags);
-#define bpf_map_update_elem(m, k, v, f) (vt_yield("update"), vt_update_f(VT_DESC(m), (k), (v), (f)))
-#define bpf_map_delete_elem(m, k) (vt_yield("delete"), vt_delete(VT_DESC(m), (k)))
+#define bpf_map_update_elem(m, k, v, f) ({ vt_yield("update"); long vt_r_ = vt_update_f(VT_DESC(m), (k), (v), (f)); vt_yield("after-update"); vt_r_; })
+#define bpf_map_delete_elem(m, k) ({ vt_yield("delete"); long vt_r_ = vt_delete(VT_DESC(m), (k)); vt_yield("after-delete"); vt_r_; })
 #define bpf_probe_read(dst, size, src) (vt_yield("probe_read"), memcpy((dst), (src), (size)), 0L)
 #define bpf_get_current_pid_tgid() (vt_yield("pid_tgid"), (((__u64)vt_current.tgid) << 32 | vt_current.tid))
 #define bpf_get_current_uid_gid() (vt_yield("uid_gid"), (((__u64)vt_current.gid) << 32 | vt_current.uid))
